@@ -24,7 +24,7 @@ ASSUMPTIONS = [
     "text with trailing garbage after a well-formed identifier is not judged as 'unparsable' (ambiguous); only text that matches neither form anywhere is",
     "for device settings the project field is not judged (no project value exists among the device-settings naming values)",
 ]
-TIMEOUT = {"quick": 1800, "thorough": 4 * 3600}
+TIMEOUT = {"quick": 900, "thorough": 4 * 3600}
 NSH = 16
 
 NAMES_Q = [None, "x", "My Project 1", "(version 07)", "a (version 07)", "12-34-56", "Zutritt Tür"]
